@@ -970,6 +970,31 @@ func (o *oracles) wakeupInvariants(snap *scheduler.VerifSnapshot) {
 			w.k.Probe("terminate_workers_blocked")
 		}
 	}
+	// A worker parked in the "drained" wait of Synchronize must be woken when
+	// its last matching drain is removed (C05: removing the drain makes it
+	// eligible again; C06: blocked calls return once their condition occurs).
+	for _, wa := range w.workers {
+		if !wa.inCall || !wa.actor.Blocked() {
+			continue
+		}
+		wk := findWorker(snap, wa.queueKey(), wa.workerKey())
+		if wk == nil || !wk.InSync || wk.Blocked || wk.TaskID != 0 {
+			continue
+		}
+		if !isDrained(snap, wk) {
+			msg := fmt.Sprintf("worker %s is still blocked in Synchronize waiting to be undrained, although no drain matches it any more and it is not terminating (drains of its queue: %v)", wa.name, findQueue(snap, wk.Queue).Drains)
+			for i := range snap.Operations {
+				if op := &snap.Operations[i]; op.Stage == remoteexecution.ExecutionStage_QUEUED && op.Queue == wk.Queue {
+					w.violate("C04/queued-while-undrained-worker-waits", msg+"; operation "+op.Name+" is queued there")
+					break
+				}
+			}
+			w.violate("C05/undrained-worker-not-woken", msg)
+			w.violate("C06/undrained-worker-not-woken", msg)
+		} else {
+			w.k.Probe("worker_waiting_while_drained")
+		}
+	}
 	for _, c := range w.clients {
 		s := c.cur
 		if s == nil || s.ended || !c.actor.Blocked() || len(s.sent) == 0 {
